@@ -63,6 +63,8 @@ def replay_finding(f):
     spec = dict(w)
     spec["txs"] = [dict(req=t["req"], unit=t["unit"], script=[(b, p) for b, p in t.get("script", [])]) for t in w["txs"]]
     c = S.make_case(spec, "replay")
+    if f.get("status") == "fixed":
+        return bool(S.failing_txns("C13", c.desc))       # the witness must pass from now on
     return S.classify_case("C13", c.desc) == f["id"]
 
 
